@@ -92,6 +92,35 @@ def _strip(k):
     return k[:2]
 
 
+def _no_interior(t):
+    """polyline leaves every contour of which has fewer than 3 points enclose nothing, whatever
+    their coordinates (exact refinement of the abstract area: a lone line never paints by fill)"""
+    if t.kind == "leaf":
+        verbs = t.args[0]
+        if not all(v in ("M", "L", "Z") for v in verbs):
+            return False
+        n = 0
+        for v in verbs:
+            if v == "M":
+                n = 1
+            elif v == "L":
+                n += 1
+                if n >= 3:
+                    return False
+        return True
+    if t.kind in ("simplify", "xf"):
+        return _no_interior(t.args[0])
+    if t.kind == "op":
+        op, a, b = t.args
+        if op == PathOp.INTERSECTION:
+            return _no_interior(a) or _no_interior(b)
+        if op == PathOp.UNION:
+            return _no_interior(a) and _no_interior(b)
+        if op == PathOp.DIFFERENCE:
+            return _no_interior(a)
+    return False
+
+
 class Term:
     """Region term.  kind in leaf|xf|op|simplify|stroke|c2q|empty"""
 
@@ -384,7 +413,7 @@ class Path:
     @property
     def area(self):
         t = self.term
-        if t.kind == "empty":
+        if t.kind == "empty" or _no_interior(t):
             return 0.0
         reg = _registry()
         a = reg["area"].get(t.key)
